@@ -115,6 +115,8 @@ class P:
     def primary(self):
         tk = self.eat()
         if tk[0] == "num":
+            if tk[1] > 9223372036854775807:
+                raise Unmodelled("integer constant %d is not representable in long long (C11 6.4.4.1p6: it has no type)" % tk[1])
             return "(.lit %d)" % tk[1]
         if tk == ("op", "("):
             e = self.expr()
